@@ -15,7 +15,7 @@ from ..ref import http as refhttp
 LEVEL = 'fault_enumeration'
 TECHNIQUE = 'runtime monitoring with fault enumeration over the proxy phase: ordered operation-log oracle (nothing written before the tunnel is up)'
 BUDGET_S = {'quick': 25, 'thorough': 150}
-REQUIRED = {'all': ['oracle.proxy_runs', 'oracle.tunnel_ok', 'oracle.tunnel_refused', 'oracle.fault_runs', 'oracle.mapping_runs',
+REQUIRED = {'all': ['oracle.sends_attempted_during_proxy_negotiation', 'oracle.proxy_runs', 'oracle.tunnel_ok', 'oracle.tunnel_refused', 'oracle.fault_runs', 'oracle.mapping_runs',
                     'oracle.order_checked']}
 RULE = ('ws/wss target x proxies mapping ({}, only http, only https, both, None with HTTP_PROXY/HTTPS_PROXY in a scrubbed '
         'environment) x proxy URL shapes (default ports 80/443, explicit port, credentials, https proxy) x proxy replies '
@@ -73,6 +73,13 @@ BAD_REPLIES = {
     'silent-proxy': b'',
     'half-then-silent': b'HTTP/1.1 200 Connection est',
 }
+DRIBBLED = {
+    # name: (pieces, seconds between pieces, eof at the end?, is the tunnel up in the end?)
+    'dribbled-200-36s': ([b'HTTP/1.1 200 Conn', b'ection establ', b'ished\r\nVia: slow', b'\r\n\r\n'], 12.0, False, True),
+    'dribbled-403-50s': ([b'HTTP/1.1 403 For', b'bidden\r\nX-Reason: ', b'policy\r\n', b'X-More: 1\r\n', b'\r\n'], 12.5, False, False),
+    'dribbled-unterminated-60s-eof': ([b'HTTP/1.1 200 OK\r\n', b'X-A: 1\r\n', b'X-B: 2\r\n', b'X-C: 3\r\n', b'X-D: 4'], 15.0, True, False),
+    'dribbled-200-bytewise-slow': ([bytes([c]) for c in b'HTTP/1.1 200 OK\r\n\r\n'], 2.5, False, True),
+}
 EOF_AFTER = ('empty-eof', 'unterminated-eof', 'half-then-eof', 'oversize-unterminated')
 
 
@@ -89,6 +96,15 @@ def cases(tier, seed, i, n):
                         segs = ['one', 'chunks']
                     for seg in segs:
                         yield dict(kind='proxy', target=tn, proxy=pn, reply=rn, seg=seg, cut=None)
+        for tn in ('ws', 'wss'):
+            for dn in DRIBBLED:
+                for early in (False, True):
+                    yield dict(kind='proxy', target=tn, proxy='http-port', reply=dn, seg=None, cut=None, early_send=early)
+        for tn in TARGETS:
+            for pn in ('http-port', 'https-default'):
+                for rn in ('ok-headers', 'status-407', 'half-then-silent', 'unterminated-eof'):
+                    # another thread tries to send while the client waits for the proxy's answer
+                    yield dict(kind='proxy', target=tn, proxy=pn, reply=rn, seg='bytewise', cut=None, early_send=True)
         # every single cut of two replies
         for rn in ('ok-headers', 'status-407'):
             rep = (OK_REPLIES.get(rn) or BAD_REPLIES.get(rn))
@@ -125,7 +141,18 @@ def run_case(case, acc):
     return run_proxy(case, acc)
 
 
-def make_server(reply, eof_after, after_ok=True):
+def make_server(reply, eof_after, after_ok=True, dribble=None):
+    if dribble is not None:
+        pieces, dt, eof, up = dribble
+        # answer in pieces: the first one right after the CONNECT, the others dt apart
+        steps = [('proxy', pieces[0])]
+        for pc in pieces[1:]:
+            steps += [('delay', dt), ('raw', pc)]
+        if eof:
+            steps += [('delay', dt), ('eof',)]
+        elif up:
+            steps += [('hs', {}), ('raw', F(1, b'through-the-tunnel')), ('eof',)]
+        return lambda _i: simnet.ScriptServer(steps)
     steps = [('proxy', reply)]
     if eof_after:
         steps.append(('eof',))
@@ -138,15 +165,20 @@ def run_proxy(case, acc):
     turl, thost, tport, tsecure = TARGETS[case['target']]
     purl, phost, pport, psecure, creds = PROXY_URLS[case['proxy']]
     faults = {}
+    dribble = None
     if case['kind'] == 'fault':
         reply = OK_REPLIES['ok-headers']
         rn = 'ok-headers'
         faults = {(case['op'], case['k']): case['fault']}
     else:
         rn = case['reply']
-        reply = OK_REPLIES.get(rn)
-        if reply is None:
-            reply = BAD_REPLIES[rn]
+        dribble = DRIBBLED.get(rn)
+        if dribble is not None:
+            reply = b''.join(dribble[0])
+        else:
+            reply = OK_REPLIES.get(rn)
+            if reply is None:
+                reply = BAD_REPLIES[rn]
     seg = case.get('seg')
     cuts = None
     if seg == 'bytewise':
@@ -157,13 +189,39 @@ def run_proxy(case, acc):
         cuts = case['cut'] if isinstance(case['cut'], list) else [case['cut']]
     elif seg == 'one':
         cuts = [len(reply)]
-    w = H.World(make_server(reply, rn in EOF_AFTER), cuts=cuts, faults=faults, budget=200000)
+    w = H.World(make_server(reply, rn in EOF_AFTER, dribble=dribble), cuts=cuts, faults=faults, budget=200000)
     mapping = {'https' if tsecure else 'http': purl}
-    run = H.drive(w, url=turl, ws_kwargs=dict(proxies=mapping), connect_kwargs=dict(ping_rate=0))
+    early = []
+    if case.get('early_send'):
+        holder = {}
+
+        def hook(sock):
+            # "another thread" uses the websocket while the connecting thread is about to block in recv()
+            ws_ = holder.get('ws')
+            if ws_ is None or 'connected' in holder.get('names', ()):
+                return
+            for call in (('send_text', 'early'), ('send_ping', b'early'), ('close',)):
+                try:
+                    getattr(ws_, call[0])(*call[1:])
+                    early.append((call[0], 'returned'))
+                except Exception as e:   # noqa
+                    early.append((call[0], type(e).__name__))
+        w.recv_hook = hook
+
+        def pol(ws_, ev, idx, run_):
+            holder['ws'] = ws_
+            holder['names'] = run_.names
+        run = H.drive(w, url=turl, ws_kwargs=dict(proxies=mapping), connect_kwargs=dict(ping_rate=0), policy=pol)
+        acc.count2('oracle', 'sends_attempted_during_proxy_negotiation', len(early))
+    else:
+        run = H.drive(w, url=turl, ws_kwargs=dict(proxies=mapping), connect_kwargs=dict(ping_rate=0))
     acc.count2('oracle', 'proxy_runs')
     if case['kind'] == 'fault':
         acc.count2('oracle', 'fault_runs')
-    expect_ok = rn in OK_REPLIES and not (case['kind'] == 'fault' and w.faults_hit)
+    expect_ok = (rn in OK_REPLIES or (dribble is not None and dribble[3])) and not (case['kind'] == 'fault' and w.faults_hit)
+    if case.get('early_send') and any(c[0] == 'close' and c[1] == 'returned' for c in early):
+        # the early close() marked the websocket as closing: whatever happens next, no handshake may be written
+        expect_ok = False
     key, detail = judge(run, w, turl, thost, tport, tsecure, purl, phost, pport, psecure, creds, reply, expect_ok, acc,
                         fault=bool(w.faults_hit))
     if key:
